@@ -284,7 +284,16 @@ Manifest decode_manifest(const std::string& uri) {
 
     const auto expires = read_u64(payload, offset);
     offset += 8;
-    manifest.expires_at = std::chrono::system_clock::time_point{std::chrono::seconds{expires}};
+    {
+        using clock_duration = std::chrono::system_clock::duration;
+        const auto expires_seconds = static_cast<std::int64_t>(expires);
+        const auto max_seconds = std::chrono::duration_cast<std::chrono::seconds>(clock_duration::max()).count();
+        const auto min_seconds = std::chrono::duration_cast<std::chrono::seconds>(clock_duration::min()).count();
+        if (expires_seconds > max_seconds || expires_seconds < min_seconds) {
+            throw std::invalid_argument("manifest expiry out of range");
+        }
+        manifest.expires_at = std::chrono::system_clock::time_point{std::chrono::seconds{expires_seconds}};
+    }
 
     manifest.threshold = payload[offset++];
     manifest.total_shares = payload[offset++];
